@@ -310,3 +310,245 @@ Proof.
   - rewrite (EA (k - 1 - i) j) in Hblock by lia. discriminate.
   - rewrite (EA i j) in Hblock by lia. discriminate.
 Qed.
+
+(* ------------------------------------------------------------------ *)
+(* the recorded range is the leaves' range                              *)
+
+Lemma children4 p : exists a b c d, children p = [a; b; c; d].
+Proof. unfold children. eauto. Qed.
+
+Lemma scalar_maskable m : scalar_mode m = true -> maskable m = m.
+Proof. destruct m; cbn; intros; try discriminate; reflexivity. Qed.
+
+Section RangeSpec.
+  Variable k : Z.
+  Variable bm : mode.
+  Variable leaves : pos -> option ftile.
+  Hypothesis Hk : 0 < k.
+  Hypothesis Hbm : scalar_mode bm = true.
+  Hypothesis Hleaves : forall p t, leaves p = Some t -> leaf_ok k bm t.
+
+  Definition tile_inv (t : ftile) : Prop :=
+    good_img k bm (ft_img t) /\ imode (ft_img t) = bm /\ img_ok (ft_img t) /\
+    is_completely_masked (ft_img t) = false.
+
+  Definition hmin (f : nat) (c : pos) : option Q :=
+    match range_spec k leaves f c with Some t => ft_min t | None => None end.
+  Definition hmax (f : nat) (c : pos) : option Q :=
+    match range_spec k leaves f c with Some t => ft_max t | None => None end.
+
+  Lemma range_inv : forall fuel p,
+    match range_spec k leaves fuel p with
+    | Some t => tile_inv t /\ is_min_of (ft_min t) (leaf_vals leaves fuel p) /\
+                is_max_of (ft_max t) (leaf_vals leaves fuel p)
+    | None => leaf_vals leaves fuel p = []
+    end.
+  Proof.
+    induction fuel as [|f IH]; intros p.
+    - cbn [range_spec leaf_vals]. destruct (leaves p) as [t|] eqn:El; [|reflexivity].
+      destruct (Hleaves p t El) as (G & Em & Hok & Hm & Es).
+      split; [exact (conj G (conj Em (conj Hok Hm)))|].
+      destruct G as (Gh & Gw & _).
+      assert (Hne : finite_vals (ft_img t) <> []).
+      { apply (tile_finite_vals k); auto. rewrite Em; exact Hbm. }
+      pose proof (f_equal ft_min Es) as E1. pose proof (f_equal ft_max Es) as E2.
+      cbn [save_fits ft_min ft_max] in E1, E2. rewrite E1, E2.
+      split; [apply qmin_opt_spec | apply qmax_opt_spec]; exact Hne.
+    - cbn [range_spec leaf_vals].
+      destruct (children4 p) as (pa & pb & pc & pd & Ech). rewrite Ech.
+      pose proof (IH pa) as Ia. pose proof (IH pb) as Ib. pose proof (IH pc) as Ic. pose proof (IH pd) as Id.
+      set (xs := [pa; pb; pc; pd]) in *.
+      (* facts about the present children *)
+      assert (Hall : forall c, In (Some c) (map (option_map ft_img) (map (range_spec k leaves f) xs)) ->
+                               good_img k bm c /\ imode c = bm /\ img_ok c /\ is_completely_masked c = false).
+      { intros c Hin. rewrite map_map in Hin. apply in_map_iff in Hin. destruct Hin as (q & Eq & Hq).
+        pose proof (IH q) as Iq. destruct (range_spec k leaves f q) as [t|]; [|discriminate].
+        cbn in Eq. injection Eq as <-. apply Iq. }
+      unfold range_callback.
+      assert (Hgood : forall ch, In (Some ch) (map (option_map ft_img) (map (range_spec k leaves f) xs)) -> good_img k bm ch)
+        by (intros ch Hin; apply (Hall ch Hin)).
+      unfold xs in Hgood. cbn [map] in Hgood.
+      destruct (merge_tiles_total upd_px Fits k bm _ _ _ _ Hk (scalar_maskable bm Hbm) Hgood)
+        as [En|(m & Em & Gm & Mm)].
+      + (* no child: nothing written, nothing beneath *)
+        unfold xs; cbn [map]. unfold merge_tiles. rewrite En.
+        pose proof (merge_tiles_early upd_px Fits k _ En) as Hnone.
+        assert (Hz : forall q, In q xs -> leaf_vals leaves f q = []).
+        { intros q Hq. pose proof (IH q) as Iq.
+          destruct (range_spec k leaves f q) as [t|] eqn:Er; [|exact Iq].
+          exfalso. assert (X : Some (ft_img t) = None); [|discriminate].
+          apply Hnone. unfold xs in Hq. cbn [In] in Hq.
+          destruct Hq as [<-|[<-|[<-|[<-|[]]]]]; rewrite Er; cbn [option_map In]; auto 6. }
+        cbn [flat_map]. rewrite (Hz pa), (Hz pb), (Hz pc), (Hz pd); unfold xs; cbn [In]; auto 6.
+      + unfold xs; cbn [map]. unfold merge_tiles. rewrite Em.
+        (* a present child *)
+        destruct (merge_tiles_shape upd_px Fits k _ m Em) as (c0 & Ef0).
+        pose proof (first_present_in _ _ Ef0) as Hin0.
+        assert (Hin0' : In (Some c0) (map (option_map ft_img) (map (range_spec k leaves f) xs))) by exact Hin0.
+        destruct (Hall c0 Hin0') as (G0 & M0 & Ok0 & Nm0).
+        assert (Hnm : is_completely_masked m = false).
+        { destruct (scalar_split bm Hbm) as [Hf|Hi].
+          - assert (Hf0 : is_float_mode (imode c0) = true) by (rewrite M0; exact Hf).
+            destruct (not_masked_finite_pixel c0 Hf0 Ok0 Nm0) as (y & x & q & Hy & Hx & Epx).
+            destruct G0 as (G0h & G0w & _). rewrite G0h in Hy. rewrite G0w in Hx.
+            destruct (In_nth _ _ None Hin0) as (n & Hn & En). cbn [length] in Hn.
+            eapply (float_merge_not_masked Fits k _ _ _ _ m n c0 y x q Hk); try eassumption.
+            intros c Hc. assert (Hc' : In (Some c) (map (option_map ft_img) (map (range_spec k leaves f) xs))) by exact Hc.
+            destruct (Hall c Hc') as ((Gh & Gw & _) & Mc & Okc & _).
+            rewrite Mc. repeat split; auto; lia.
+          - apply never_masked_lemma. right. rewrite Mm. exact Hi. }
+        rewrite Hnm.
+        split.
+        * repeat split; cbn [save_fits ft_img]; try apply Gm; try assumption.
+          refine (merge_tiles_ok Fits k _ m _ Em).
+          intros ch Hc. assert (Hc' : In (Some ch) (map (option_map ft_img) (map (range_spec k leaves f) xs))) by exact Hc.
+          apply (Hall ch Hc').
+        * (* the headers *)
+          assert (Hpres : exists q, In q xs /\ range_spec k leaves f q <> None).
+          { change (In (Some c0) (map (option_map ft_img) (map (range_spec k leaves f) xs))) in Hin0'.
+            rewrite map_map in Hin0'. apply in_map_iff in Hin0'. destruct Hin0' as (q & Eq & Hq).
+            exists q. split; [exact Hq|]. destruct (range_spec k leaves f q); [discriminate|discriminate]. }
+          destruct Hpres as (q0 & Hq0 & Hne0).
+          assert (Pmin : forall a, In a xs -> match hmin f a with Some mm => is_min_of (Some mm) (leaf_vals leaves f a)
+                                                              | None => leaf_vals leaves f a = [] end).
+          { intros a _. unfold hmin. pose proof (IH a) as Ia'.
+            destruct (range_spec k leaves f a) as [t|]; [|exact Ia'].
+            destruct Ia' as (_ & X & _). destruct (ft_min t); [exact X|destruct X]. }
+          assert (Pmax : forall a, In a xs -> match hmax f a with Some mm => is_max_of (Some mm) (leaf_vals leaves f a)
+                                                              | None => leaf_vals leaves f a = [] end).
+          { intros a _. unfold hmax. pose proof (IH a) as Ia'.
+            destruct (range_spec k leaves f a) as [t|]; [|exact Ia'].
+            destruct Ia' as (_ & _ & X). destruct (ft_max t); [exact X|destruct X]. }
+          assert (Emin : exists a, In a xs /\ hmin f a <> None).
+          { exists q0. split; [exact Hq0|]. unfold hmin. pose proof (IH q0) as I0.
+            destruct (range_spec k leaves f q0) as [t|]; [|congruence].
+            destruct I0 as (_ & X & _). destruct (ft_min t); [discriminate|destruct X]. }
+          assert (Emax : exists a, In a xs /\ hmax f a <> None).
+          { exists q0. split; [exact Hq0|]. unfold hmax. pose proof (IH q0) as I0.
+            destruct (range_spec k leaves f q0) as [t|]; [|congruence].
+            destruct I0 as (_ & _ & X). destruct (ft_max t); [discriminate|destruct X]. }
+          pose proof (combine_min pos (hmin f) (leaf_vals leaves f) xs Pmin Emin) as Cmin.
+          pose proof (combine_max pos (hmax f) (leaf_vals leaves f) xs Pmax Emax) as Cmax.
+          cbn [save_fits ft_min ft_max children_minmax fst snd].
+          change [range_spec k leaves f pa; range_spec k leaves f pb; range_spec k leaves f pc; range_spec k leaves f pd]
+            with (map (range_spec k leaves f) xs).
+          rewrite !map_map.
+          change (map (fun x => match range_spec k leaves f x with Some t => ft_min t | None => None end) xs)
+            with (map (hmin f) xs).
+          change (map (fun x => match range_spec k leaves f x with Some t => ft_max t | None => None end) xs)
+            with (map (hmax f) xs).
+          destruct (qmin_opt (opt_vals (map (hmin f) xs))) as [vmin|]; [|destruct Cmin].
+          destruct (qmax_opt (opt_vals (map (hmax f) xs))) as [vmax|]; [|destruct Cmax].
+          split; assumption.
+  Qed.
+End RangeSpec.
+
+(* ------------------------------------------------------------------ *)
+(* packaged statements for Properties/C14.v                             *)
+
+Definition leaves_ok (k : Z) (bm : mode) (leaves : pos -> option ftile) : Prop :=
+  forall p t, leaves p = Some t -> leaf_ok k bm t.
+
+Lemma range_is_leaf_range_lemma k bm leaves :
+  0 < k -> scalar_mode bm = true -> leaves_ok k bm leaves ->
+  forall fuel p,
+    (forall t, range_spec k leaves fuel p = Some t ->
+               is_min_of (ft_min t) (leaf_vals leaves fuel p) /\
+               is_max_of (ft_max t) (leaf_vals leaves fuel p)) /\
+    (range_spec k leaves fuel p = None <-> leaf_vals leaves fuel p = []).
+Proof.
+  intros Hk Hbm Hl fuel p. pose proof (range_inv k bm leaves Hk Hbm Hl fuel p) as I.
+  destruct (range_spec k leaves fuel p) as [t|].
+  - destruct I as (_ & A & B). split.
+    + intros t' E. injection E as <-. auto.
+    + split; [discriminate|]. intros E. rewrite E in A.
+      destruct (ft_min t); [destruct A as ([] & _)|destruct A].
+  - split; [discriminate|]. split; auto.
+Qed.
+
+Lemma root_range_lemma k bm leaves start :
+  0 < k -> scalar_mode bm = true -> leaves_ok k bm leaves ->
+  leaf_vals leaves start root <> [] ->
+  exists a b, builder_range (range_spec k leaves start root) = Some (a, b) /\
+              is_min_of (Some a) (leaf_vals leaves start root) /\
+              is_max_of (Some b) (leaf_vals leaves start root).
+Proof.
+  intros Hk Hbm Hl Hne. pose proof (range_inv k bm leaves Hk Hbm Hl start root) as I.
+  destruct (range_spec k leaves start root) as [t|]; [|contradiction].
+  destruct I as (_ & A & B). cbn [builder_range].
+  destruct (ft_min t) as [a|]; [|destruct A]. destruct (ft_max t) as [b|]; [|destruct B].
+  exists a, b. auto.
+Qed.
+
+(* the mechanism: what one callback writes into the parent's cards *)
+Lemma range_callback_spec_lemma k cs t :
+  range_callback k cs = Some (Some t) ->
+  exists m, merge_tiles Fits k (map (option_map ft_img) cs) = Some (Some m) /\
+            is_completely_masked m = false /\ ft_img t = m /\
+            ft_min t = match qmin_opt (opt_vals (map (fun c => match c with Some x => ft_min x | None => None end) cs)) with
+                       | Some v => Some v | None => qmin_opt (finite_vals m) end /\
+            ft_max t = match qmax_opt (opt_vals (map (fun c => match c with Some x => ft_max x | None => None end) cs)) with
+                       | Some v => Some v | None => qmax_opt (finite_vals m) end.
+Proof.
+  unfold range_callback.
+  destruct (merge_tiles Fits k (map (option_map ft_img) cs)) as [[m|]|]; try discriminate.
+  destruct (is_completely_masked m) eqn:Em; [discriminate|].
+  intros H; injection H as <-. exists m. cbn. auto.
+Qed.
+
+(* the pixel part of the range pyramid is the cascade's pyramid (Merge.pyramid_spec) *)
+Lemma range_pixels_lemma k bm leaves orc :
+  0 < k -> scalar_mode bm = true -> leaves_ok k bm leaves ->
+  forall fuel p,
+    option_map ft_img (range_spec k leaves fuel p) =
+    option_map (decode (orc p))
+               (pyramid_spec upd_px Fits k orc
+                             (fun q => option_map (fun t => FExact (ft_img t)) (leaves q)) fuel p).
+Proof.
+  intros Hk Hbm Hl. induction fuel as [|f IH]; intros p.
+  - cbn [range_spec pyramid_spec]. destruct (leaves p); reflexivity.
+  - pose proof (range_inv k bm leaves Hk Hbm Hl (S f) p) as Inv.
+    cbn [range_spec pyramid_spec] in *. unfold range_callback in *.
+    assert (E : map (option_map ft_img) (map (range_spec k leaves f) (children p)) =
+                map (fun c => option_map (decode (orc c))
+                                (pyramid_spec upd_px Fits k orc
+                                   (fun q => option_map (fun t => FExact (ft_img t)) (leaves q)) f c)) (children p)).
+    { rewrite map_map. apply map_ext. intros c. apply IH. }
+    rewrite <- E. unfold merge_tiles in *.
+    destruct (merge_tiles_gen upd_px Fits k (map (option_map ft_img) (map (range_spec k leaves f) (children p))))
+      as [[m|]|]; try reflexivity.
+    destruct (is_completely_masked m); [reflexivity|].
+    destruct Inv as ((_ & Em & _) & _). cbn [save_fits ft_img] in Em.
+    unfold encode. rewrite Em.
+    replace (holds Fits bm) with true by (destruct bm; try discriminate; reflexivity).
+    reflexivity.
+Qed.
+
+(* concrete pyramids for the examples: 1 x 1 float tiles at level 1 *)
+Definition ex_leaf (v : Z) : ftile := save_fits (mkImg 1 1 F32 (fun _ _ => PxF (Some (inject_Z v)))) None None.
+Definition ex_leaves : pos -> option ftile :=
+  fun p => if pos_eqb p (mkPos 1 0 0) then Some (ex_leaf 0)
+           else if pos_eqb p (mkPos 1 1 0) then Some (ex_leaf 4)
+           else if pos_eqb p (mkPos 1 0 1) then Some (ex_leaf 8)
+           else if pos_eqb p (mkPos 1 1 1) then Some (ex_leaf 12) else None.
+Definition ex_root_summary : option (list Q * option Q * option Q) :=
+  match range_spec 1 ex_leaves 1 root with
+  | Some t => Some (finite_vals (ft_img t), ft_min t, ft_max t)
+  | None => None
+  end.
+
+Lemma ex_leaf_ok v : leaf_ok 1 F32 (ex_leaf v).
+Proof.
+  unfold leaf_ok, ex_leaf; cbn [save_fits ft_img].
+  split; [unfold good_img; cbn; auto|]. split; [reflexivity|]. split; [intros r c; reflexivity|].
+  split; [vm_compute; reflexivity|reflexivity].
+Qed.
+
+Lemma ex_leaves_ok : leaves_ok 1 F32 ex_leaves.
+Proof.
+  intros p t. unfold ex_leaves.
+  destruct (pos_eqb p (mkPos 1 0 0)); [intros H; injection H as <-; apply ex_leaf_ok|].
+  destruct (pos_eqb p (mkPos 1 1 0)); [intros H; injection H as <-; apply ex_leaf_ok|].
+  destruct (pos_eqb p (mkPos 1 0 1)); [intros H; injection H as <-; apply ex_leaf_ok|].
+  destruct (pos_eqb p (mkPos 1 1 1)); [intros H; injection H as <-; apply ex_leaf_ok|discriminate].
+Qed.
